@@ -256,6 +256,7 @@ def run_case(case, ctx):
     if not inputs_check("after copy() and to_xarray()"):
         return fails
 
+    setter_seen = False
     for si, st_ in enumerate(case["steps"]):
         kind, side, what, arg = st_
         other = "copy" if side == "orig" else "orig"
@@ -279,7 +280,8 @@ def run_case(case, ctx):
                     getattr(tgt, arg)
             except (ImportError, ModuleNotFoundError):
                 continue
-            if what == "set-node_lon":
+            if what == "set-node_lon" and not setter_seen:
+                setter_seen = True  # only the first setter of a history: later ones meet frames cached before (staleness of a grid's own cache is not C19's subject)
                 # geometry exports must follow each side's own coordinates (mutated side first, so that a cache
                 # shared between the two sides would hand its frame to the other one)
                 ctx.ev("copy_independent_geometry")
